@@ -29,6 +29,15 @@ struct Stream {
     then_eof: bool,
 }
 
+/// Frames a server may send right behind Connection.OpenOk: heartbeat, blocked notice, heartbeat.
+fn preamble() -> Vec<u8> {
+    let mut f = Vec::new();
+    wire::heartbeat(&mut f);
+    wire::method(&mut f, 0, &AMQPClass::Connection(Cn::Blocked(connection::Blocked { reason: "glued".into() })));
+    wire::heartbeat(&mut f);
+    f
+}
+
 /// A fixed, non-reactive server stream made of real frames, from a seed.
 fn build_stream(seed: u64) -> Stream {
     let mut cs = ChoiceStream::generate(seed ^ 0xC06);
@@ -185,6 +194,11 @@ impl Scenario for C06 {
             if l <= 1500 {
                 v.push(CaseSpec { family: "cuts".into(), seed: s, params: vec![3], choices: None });
             }
+            // a preamble of real frames glued to the handshake's last frame: the first k bytes arrive in
+            // the same segment as Connection.OpenOk, the rest 5 ms later (every k)
+            for k in 0..=preamble().len() {
+                v.push(CaseSpec { family: "cuts".into(), seed: s, params: vec![4, k as i64], choices: None });
+            }
         }
         v
     }
@@ -203,6 +217,7 @@ impl Scenario for C06 {
                 let n = 2 + cs.choose("n_cuts", 12) as usize;
                 (0..n).map(|_| 1 + cs.choose("cut_at", (l - 1).max(1) as u32) as usize).collect()
             }
+            4 => vec![],
             _ => (1..l).collect(),
         };
         let mut broker = BrokerCfg::default();
@@ -212,6 +227,9 @@ impl Scenario for C06 {
         broker.s2c_lat_min_ns = 1_000;
         broker.s2c_lat_max_ns = 1_000;
         broker.eof_after_server_close = true;
+        if mode == 4 {
+            broker.glue_after_open_ok = Some((preamble(), spec.params.get(1).copied().unwrap_or(0) as usize, GAP));
+        }
         broker.script.push((Trigger::AtTime(T0), Action::RawStream { bytes: st.bytes.clone(), cuts: cuts.clone(), gap_ns: GAP, then_eof: st.then_eof }));
         let mut net = NetCfg::default();
         net.c2s_lat_min_ns = 1_000;
@@ -230,7 +248,7 @@ impl Scenario for C06 {
         let (res, world) = run_generated(&gen, cs, text, |_| {});
         let mut rep = CaseReport::default();
         fill_common(&mut rep, &res, &world);
-        let mode_name = ["whole", "single cut", "random cuts", "1-byte dribble"][mode as usize % 4];
+        let mode_name = ["whole", "single cut", "random cuts", "1-byte dribble", "preamble glued to OpenOk"][mode as usize % 5];
         rep.sample = serde_json::json!({"stream_seed": spec.seed, "stream_bytes": l, "frames": st.boundaries.len() - 1, "ending": st.ending, "expected_deliveries": st.deliveries.len(), "cuts": if cuts.len() > 20 { vec![cuts.len()] } else { cuts.clone() }, "mode": mode_name});
         for p in &res.run.panics {
             rep.violate("panic", format!("{}@{}", p.thread, p.location), format!("{} panicked: {}", p.thread, p.message));
@@ -311,13 +329,19 @@ impl Scenario for C06 {
             rep.violate("ending", format!("{}-instead-of-{}", got_err.split('(').next().unwrap_or(""), st.expect_error.split('(').next().unwrap_or("")), format!("{}: connection ended with {}, the bytes dictate {}", ctx, got_err, st.expect_error));
             return rep;
         }
-        let inside = cuts.iter().any(|c| !st.boundaries.contains(c));
+        if mode == 4 {
+            rep.count("c06.glued_to_open_ok", 1);
+        }
+        let inside = cuts.iter().any(|c| !st.boundaries.contains(c)) || mode == 4;
         rep.count("c06.cut_inside_frame", inside as u64);
         rep.count(&format!("c06.ending.{}", st.ending.split(':').next().unwrap_or("")), 1);
         rep.nontrivial = inside || mode == 0;
         let mut h = spec.seed;
         for c in &cuts {
             h = (h ^ *c as u64).wrapping_mul(0x100000001b3);
+        }
+        if mode == 4 {
+            h = (h ^ 0x4_0000 ^ spec.params.get(1).copied().unwrap_or(0) as u64).wrapping_mul(0x100000001b3);
         }
         rep.distinct = h;
         rep
